@@ -8,6 +8,7 @@ import WorkflowModel.Model.Adapters.RefTimeouts
 import WorkflowModel.Model.Adapters.SqlStore
 import WorkflowModel.Model.Launch
 import WorkflowModel.Model.Adapters.RefRoles
+import WorkflowModel.Model.Schedule
 /-! Line-protocol driver for the correspondence check (T3). One command per input line, one answer per
 output line. Core-only imports, so it links as `lean_exe wfdriver`. Unknown commands answer `bad-op`
 (never a default). -/
@@ -328,11 +329,33 @@ def step (s : RState) (args : List String) : Option (RState × String) :=
 
 end RoDrv
 
+namespace SchDrv
+open WorkflowModel.Schedule
+
+def step (s : SchState) (args : List String) : Option (SchState × String) :=
+  match args with
+  | ["reset", ticks] => do
+    let ts ← if ticks == "-" then some [] else (ticks.splitOn ",").mapM String.toInt?
+    some ({ ticks := ts }, "ok")
+  | ["park", now] => do
+    let s' := s.park (← now.toInt?)
+    some (s', match s'.pending with | some d => s!"deadline:{d}" | none => "deadline:none")
+  | ["wake", now, f] => do
+    let (s', o) := s.wake (← now.toInt?) (f == "1")
+    some (s', match o with | .created => "created" | .skipFilter => "skip-filter" | .inProgress => "in-progress" | .notDue => "not-due")
+  | ["finish"] => some (s.finish, "ok")
+  | ["lose"] => some (s.lose, "ok")
+  | ["created"] => some (s, if s.created.isEmpty then "-" else ",".intercalate (s.created.reverse.map toString))
+  | _ => none
+
+end SchDrv
+
 structure Aux where
   rs : WorkflowModel.RefStore.Store := {}
   st : WorkflowModel.RefStream.Stream := {}
   ts : WorkflowModel.RefTimeouts.TStore := {}
   ro : WorkflowModel.RefRoles.RState := {}
+  sch : WorkflowModel.Schedule.SchState := {}
 
 partial def loop (h : IO.FS.Stream) (out : IO.FS.Stream) (cfg : WorkflowModel.Engine.Cfg) (sys : WorkflowModel.Engine.Sys)
     (rs : Aux := {}) : IO Unit := do
@@ -357,6 +380,10 @@ partial def loop (h : IO.FS.Stream) (out : IO.FS.Stream) (cfg : WorkflowModel.En
   | "st" :: rest =>
     match StDrv.step rs.st rest with
     | some (st', ans) => out.putStrLn ans; out.flush; loop h out cfg sys { rs with st := st' }
+    | none => out.putStrLn "bad-op"; out.flush; loop h out cfg sys rs
+  | "sch" :: rest =>
+    match SchDrv.step rs.sch rest with
+    | some (s', ans) => out.putStrLn ans; out.flush; loop h out cfg sys { rs with sch := s' }
     | none => out.putStrLn "bad-op"; out.flush; loop h out cfg sys rs
   | "ro" :: rest =>
     match RoDrv.step rs.ro rest with
